@@ -37,10 +37,12 @@
      - `check_benign`: the first pass does not fire, the MySQL re-parse is not
        requested, and the input holds no quote, so no other pass runs.
 
-   NOT covered: the second clause of the property — e-mail addresses, decimal
-   numbers ("3.14") and punctuated sentences — is exercised by the harness as
-   tests (streams shape-email / shape-decimal / shape-sentence), not proved
-   here; nor are inputs with tabs, doubled, leading or trailing spaces. *)
+   The second clause of the property — e-mail addresses, decimal numbers
+   ("3.14") and punctuated sentences — is proved in Properties/C14b.v
+   (C14b_decimal / C14b_email / C14b_sentence over the families of
+   Spec/ShapeSpec.v, which contain the harness streams shape-email /
+   shape-decimal / shape-sentence).
+   NOT covered: inputs with tabs, doubled, leading or trailing spaces. *)
 From Coq Require Import List ZArith String Bool.
 From Coq.Strings Require Import Byte.
 From LI Require Import Prelude Base SqliLex SqliFold Spec.BenignSpec Proofs.BenignLex Proofs.BenignCheck.
